@@ -28,6 +28,7 @@ type Op struct {
 	A    int64  `json:"a,omitempty"`
 	B    int64  `json:"b,omitempty"`
 	C    int64  `json:"c,omitempty"`
+	D    int64  `json:"d,omitempty"`
 	S    string `json:"s,omitempty"`
 }
 
